@@ -336,3 +336,222 @@ Proof.
   cbv zeta. split; [discriminate|]. split; [repeat constructor|]. split; [repeat constructor|].
   split; [reflexivity|]. split; [split; [intro H; discriminate H|reflexivity]|]. split; [repeat constructor|]. vm_compute. reflexivity.
 Qed.
+
+(* ------------------------------------------------------------------------------
+   11. THE TWO REMAINING COLLECTORS of events/collector.go: NewIntervalCollector and
+   NewRandomSamplingCollector (Model/EventsMore.v, Proofs/EventsMoreProofs.v).
+   Their decisions depend on the wall clock resp. on math/rand; both are explicit
+   inputs of the model:
+     run_interval dur clock ops      clock : list Z, one reading per event that reaches
+                                     the collector's body (nil events return before the
+                                     clock is read), from a fresh collector
+     run_interval2 dur clock iinit ops   the same with the TWO readings a call can take
+                                     (time.Since, then time.Now for lastCollected):
+                                     clock : list (Z * Z); run_interval is the instance
+                                     in which the two coincide
+     run_rand percent coins ops      coins = the values rand.Intn(101) returned, consumed
+                                     only by the calls that reach it (0 < percent <= 100)
+     thin mask tr                    the trace tr in which the j-th written sample is
+                                     withheld (RWritten -> RSkipped) when mask_j = false
+     select mask l                   the elements of l at the positions where mask is true
+     interval_mask dur clock, rand_mask percent coins k, samp_mask n 0 k
+                                     the decisions, as functions of clock / coins / n alone
+   The harness drives these constructors where they are deterministic and the driver maps
+   them onto the kinds of Model/Events.v: NewIntervalCollector(fc, 0) and
+   NewRandomSamplingCollector(fc, true, 101) as KCumulative, NewIntervalCollector(fc, 1000h)
+   as KSampling 2^62.  The theorems below justify that mapping for every history, and say
+   what holds at every other parameter value: the running totals are never thinned out,
+   only the samples handed over are.
+   (The unqualified run/op/... are Collector's here; the event collectors' are Events.x.) *)
+From Coq Require Import Lia Sorted.
+From FV.Model Require Import EventsMore.
+From FV.Proofs Require Import EventsMoreProofs.
+
+(* 11.1 interval collector, ANY interval and ANY clock (not even monotone) with a reading
+   for every operation: the store and c.current are the cumulative collector's, the
+   trace is the cumulative collector's thinned by interval_mask, the same events are
+   added, and what is written is a selection of what the cumulative collector writes *)
+Theorem C14_interval_totals_independent_of_clock : forall dur clock ops,
+  (length ops <= length clock)%nat ->
+  let r := run_interval dur clock ops in
+  let rc := Events.run KCumulative init ops in
+  let mask := interval_mask dur clock in
+  i_base (fst r) = fst rc /\
+  snd r = thin mask (snd rc) /\
+  added_of (snd r) = added_of (snd rc) /\
+  written_of (snd r) = select mask (written_of (snd rc)).
+Proof. exact EventsMoreProofs.interval_general. Qed.
+Print Assumptions C14_interval_totals_independent_of_clock.
+
+Theorem C14_interval_totals_independent_of_clock_two_readings : forall dur clock ops,
+  (length ops <= length clock)%nat ->
+  let r := run_interval2 dur clock iinit ops in
+  let rc := Events.run KCumulative init ops in
+  let mask := interval_mask2 dur true 0 clock in
+  i_base (fst r) = fst rc /\
+  snd r = thin mask (snd rc) /\
+  added_of (snd r) = added_of (snd rc) /\
+  written_of (snd r) = select mask (written_of (snd rc)).
+Proof. exact EventsMoreProofs.interval2_general. Qed.
+Print Assumptions C14_interval_totals_independent_of_clock_two_readings.
+
+(* every written sample is the running total (section 0) of the events added up to it *)
+Theorem C14_interval_written_are_running_totals : forall dur clock ops,
+  (length ops <= length clock)%nat -> int64_history ops ->
+  let tr := snd (run_interval dur clock ops) in
+  written_of tr = select (interval_mask dur clock) (expected_cumulative (added_of tr)).
+Proof. exact EventsMoreProofs.interval_written_totals. Qed.
+Print Assumptions C14_interval_written_are_running_totals.
+
+(* 11.2 (a) "cum@ival0": interval <= 0 and a clock that does not go backwards: the WHOLE
+   trace (what was added, every outcome, every written value) and the whole final state
+   (store, c.current, count) are the cumulative collector's *)
+Theorem C14_interval_zero_is_cumulative : forall dur clock ops,
+  dur <= 0 -> Sorted Z.le clock -> (length ops <= length clock)%nat ->
+  let r := run_interval dur clock ops in
+  let rc := Events.run KCumulative init ops in
+  snd r = snd rc /\ i_base (fst r) = fst rc.
+Proof. exact EventsMoreProofs.interval_zero. Qed.
+Print Assumptions C14_interval_zero_is_cumulative.
+
+Theorem C14_interval_zero_is_cumulative_two_readings : forall dur clock ops,
+  dur <= 0 -> Sorted Z.le (flat_clock clock) -> (length ops <= length clock)%nat ->
+  let r := run_interval2 dur clock iinit ops in
+  let rc := Events.run KCumulative init ops in
+  snd r = snd rc /\ i_base (fst r) = fst rc.
+Proof. exact EventsMoreProofs.interval2_zero. Qed.
+Print Assumptions C14_interval_zero_is_cumulative_two_readings.
+
+(* 11.3 (b) "samp@ivalmax": the interval never elapses (every later reading is less than
+   dur after the first one): the WHOLE trace is the one of the n-sampling collector for
+   any rate n = huge beyond the number of operations; exactly the first added event is
+   written, as it is; and nothing is lost from the running totals: the final store and
+   c.current are the cumulative collector's (for the sampling collector as well) *)
+Theorem C14_interval_long_is_first_only : forall dur clock ops huge,
+  never_elapses dur clock -> (length ops <= length clock)%nat ->
+  Z.of_nat (length ops) < huge -> Z.of_nat (length ops) < 2 ^ 63 ->
+  let r := run_interval dur clock ops in
+  let rc := Events.run KCumulative init ops in
+  let rs := Events.run (KSampling huge) init ops in
+  snd r = snd rs /\
+  written_of (snd r) = firstn 1 (added_of (snd r)) /\
+  added_of (snd r) = added_of (snd rc) /\
+  i_base (fst r) = fst rc /\
+  s_store (fst rs) = s_store (fst rc) /\ s_current (fst rs) = s_current (fst rc).
+Proof. exact EventsMoreProofs.interval_long. Qed.
+Print Assumptions C14_interval_long_is_first_only.
+
+Theorem C14_interval_long_is_first_only_two_readings : forall dur clock ops huge,
+  never_elapses2 dur clock -> (length ops <= length clock)%nat ->
+  Z.of_nat (length ops) < huge -> Z.of_nat (length ops) < 2 ^ 63 ->
+  let r := run_interval2 dur clock iinit ops in
+  let rc := Events.run KCumulative init ops in
+  let rs := Events.run (KSampling huge) init ops in
+  snd r = snd rs /\
+  written_of (snd r) = firstn 1 (added_of (snd r)) /\
+  added_of (snd r) = added_of (snd rc) /\
+  i_base (fst r) = fst rc /\
+  s_store (fst rs) = s_store (fst rc) /\ s_current (fst rs) = s_current (fst rc).
+Proof. exact EventsMoreProofs.interval2_long. Qed.
+Print Assumptions C14_interval_long_is_first_only_two_readings.
+
+(* the n-sampling collector itself, any n <> 0 and any history (no int64 hypothesis): the
+   cumulative collector's trace thinned by the count rule, same store and c.current *)
+Theorem C14_sampling_is_thinned_cumulative : forall n ops, n <> 0 ->
+  let rs := Events.run (KSampling n) init ops in
+  let rc := Events.run KCumulative init ops in
+  let mask := samp_mask n 0 (length ops) in
+  snd rs = thin mask (snd rc) /\
+  s_store (fst rs) = s_store (fst rc) /\ s_current (fst rs) = s_current (fst rc) /\
+  added_of (snd rs) = added_of (snd rc) /\
+  written_of (snd rs) = select mask (written_of (snd rc)).
+Proof. exact EventsMoreProofs.sampling_thinned. Qed.
+Print Assumptions C14_sampling_is_thinned_cumulative.
+
+(* 11.4 (c) "cum@rand101": more than 100 percent: state and trace are the cumulative
+   collector's, whatever the coins (none is consumed) *)
+Theorem C14_rand_over_100_is_cumulative : forall percent coins ops, 100 < percent ->
+  run_rand percent coins ops = Events.run KCumulative init ops.
+Proof. exact EventsMoreProofs.rand_over_100. Qed.
+Print Assumptions C14_rand_over_100_is_cumulative.
+
+(* 11.5 (d) zero percent or less: nothing is ever written, and yet every event is summed *)
+Theorem C14_rand_nonpositive_writes_nothing : forall percent coins ops, percent <= 0 ->
+  let r := run_rand percent coins ops in
+  let rc := Events.run KCumulative init ops in
+  written_of (snd r) = [] /\ fst r = fst rc /\ added_of (snd r) = added_of (snd rc).
+Proof. exact EventsMoreProofs.rand_nonpositive. Qed.
+Print Assumptions C14_rand_nonpositive_writes_nothing.
+
+(* 11.6 (e) any percent, any coins (one per operation when 0 < percent <= 100): the final
+   state is the cumulative collector's - what is written may be thinned out, the totals
+   never are; the trace is the cumulative one thinned by the coins, and the written
+   samples are those of the cumulative collector at the positions the coins select *)
+Theorem C14_rand_totals_independent_of_coins : forall percent coins ops,
+  (0 < percent <= 100 -> (length ops <= length coins)%nat) ->
+  let r := run_rand percent coins ops in
+  let rc := Events.run KCumulative init ops in
+  let mask := rand_mask percent coins (length ops) in
+  fst r = fst rc /\
+  snd r = thin mask (snd rc) /\
+  added_of (snd r) = added_of (snd rc) /\
+  written_of (snd r) = select mask (written_of (snd rc)).
+Proof. exact EventsMoreProofs.rand_general. Qed.
+Print Assumptions C14_rand_totals_independent_of_coins.
+
+Theorem C14_rand_written_are_running_totals : forall percent coins ops,
+  (0 < percent <= 100 -> (length ops <= length coins)%nat) -> int64_history ops ->
+  let tr := snd (run_rand percent coins ops) in
+  written_of tr = select (rand_mask percent coins (length ops)) (expected_cumulative (added_of tr)).
+Proof. exact EventsMoreProofs.rand_written_totals. Qed.
+Print Assumptions C14_rand_written_are_running_totals.
+
+(* 11.7 (f) non-vacuity on the history of C14_example (5 added events: a counter sum that
+   wraps, the running-total pointer and another pointer added again, a nil event, an
+   unknown object): the hypotheses are satisfiable and the projections differ *)
+Definition ex_w0 := ex_a.
+Definition ex_w1 := mkPerf 2000 8 (- 2 ^ 63) 2 (-20) 1 10 12 3 4 true.
+Definition ex_w2 := mkPerf 2000 8 0 4 (-40) 2 20 24 3 4 true.
+Definition ex_w3 := mkPerf 2000 8 1 5 (-70) 3 25 30 3 4 true.
+Definition ex_w4 := mkPerf 3000 9 1 7 (-70) 3 26 31 9 9 false.
+Definition ex_hours_1000 : Z := 1000 * 3600 * 1000000000.   (* 1000 * time.Hour *)
+
+Example C14_more_example :
+  (* hypotheses of 11.2 and 11.3 *)
+  Sorted Z.le [5; 5; 7; 7; 9; 9; 9] /\ (length ex_ops <= length [5; 5; 7; 7; 9; 9; 9])%nat /\
+  never_elapses ex_hours_1000 [5; 50; 700; 7000; 90000; 90000; 90000] /\
+  Z.of_nat (length ex_ops) < 2 ^ 62 /\
+  (* the cumulative collector, for reference *)
+  written_of (snd (Events.run KCumulative init ex_ops)) = [ex_w0; ex_w1; ex_w2; ex_w3; ex_w4] /\
+  (* interval 0 *)
+  written_of (snd (run_interval 0 [5; 5; 7; 7; 9; 9; 9] ex_ops)) = [ex_w0; ex_w1; ex_w2; ex_w3; ex_w4] /\
+  (* interval 1000h *)
+  map o_res (snd (run_interval ex_hours_1000 [5; 50; 700; 7000; 90000; 90000; 90000] ex_ops)) =
+    [RWritten ex_w0; RSkipped; RSkipped; RRefused; RSkipped; RNoObject; RSkipped] /\
+  snd (run_interval ex_hours_1000 [5; 50; 700; 7000; 90000; 90000; 90000] ex_ops) =
+    snd (Events.run (KSampling (2 ^ 62)) init ex_ops) /\
+  (* interval 10 ns, one reading per call ... *)
+  interval_mask 10 [0; 4; 10; 21; 22; 30; 30] = [true; false; true; true; false; false; false] /\
+  written_of (snd (run_interval 10 [0; 4; 10; 21; 22; 30; 30] ex_ops)) = [ex_w0; ex_w2; ex_w3] /\
+  (* ... and with a second reading (lastCollected = 12) taken after the first (10) in the third call *)
+  interval_mask2 10 true 0 [(0, 0); (4, 4); (10, 12); (21, 21); (22, 25); (30, 30); (30, 30)] =
+    [true; false; true; false; true; false; false] /\
+  written_of (snd (run_interval2 10 [(0, 0); (4, 4); (10, 12); (21, 21); (22, 25); (30, 30); (30, 30)] iinit ex_ops)) =
+    [ex_w0; ex_w2; ex_w4] /\
+  (* random sampling at 50 percent with the coins 70 20 99 3 50 (+ spares), at 101 and at 0 *)
+  rand_mask 50 [70; 20; 99; 3; 50; 0; 0] (length ex_ops) = [false; true; false; true; false; true; true] /\
+  written_of (snd (run_rand 50 [70; 20; 99; 3; 50; 0; 0] ex_ops)) = [ex_w1; ex_w3] /\
+  written_of (snd (run_rand 101 [] ex_ops)) = [ex_w0; ex_w1; ex_w2; ex_w3; ex_w4] /\
+  written_of (snd (run_rand 0 [] ex_ops)) = [] /\
+  (* the running totals at the end are the same in all of them *)
+  current_value (fst (Events.run KCumulative init ex_ops)) = ex_w4 /\
+  current_value (i_base (fst (run_interval ex_hours_1000 [5; 50; 700; 7000; 90000; 90000; 90000] ex_ops))) = ex_w4 /\
+  current_value (fst (run_rand 50 [70; 20; 99; 3; 50; 0; 0] ex_ops)) = ex_w4 /\
+  current_value (fst (run_rand 0 [] ex_ops)) = ex_w4.
+Proof.
+  split; [repeat first [lia | constructor]|].
+  split; [cbn [length ex_ops]; lia|].
+  split; [cbn [never_elapses]; unfold ex_hours_1000; repeat first [lia | constructor]|].
+  split; [cbn [length ex_ops]; lia|].
+  vm_compute. repeat split.
+Qed.
